@@ -1,4 +1,5 @@
 import Crv.Mode
+import Crv.Proofs.Skeleton
 import Crv.Generated.Mode
 /-!
 C03 — Mode composition. All statements are about the definitions the translator regenerates
@@ -86,5 +87,10 @@ theorem parseMode_unknown_rejected (s : String)
 example : (verifyProg.run .preferOCSP (envOf .good .revoked) true).verdict = .reject := by decide
 example : (verifyProg.run .ocspOnly (envOf .good .revoked) true).verdict = .accept := by decide
 example : (verifyProg.run .preferCRL (envOf .error .good) true).consulted = [.ocsp] := by decide
+
+/-- The hand-written `Mode` model this property rests on was transcribed from exactly these sources: the fingerprints are
+recomputed from /repo on every run (tools/extract/skeleton.go), so any change to one of the functions breaks this obligation. -/
+theorem mode_sources_as_transcribed : Crv.Generated.skeletonMode = Crv.Skeleton.expectedMode :=
+  Crv.Skeleton.mode_sources_as_transcribed
 
 end Crv.Props.C03
